@@ -22,7 +22,8 @@ def run(tier, seed):
     # chains are long histories: a small box (-1..1) and universe (-6..6) keep the witness sets small; the
     # stabilisation judgement (WidenChain) does not depend on them
     nchains = 10 if tier == "quick" else 90
-    hs = [hist.chain_history(ck.rng, i + 1, n=ck.rng.choice([25, 35]), params=ck.rng.choice(c03.PARAMS)) for i in range(nchains)]
+    hs = [hist.chain_history(ck.rng, i + 1, n=ck.rng.choice([25, 35]), params=ck.rng.choice(c03.PARAMS), stride=True if i < 2 else None)
+          for i in range(nchains)]
     fails, knowns, traces = [], [], []
     for off in range(0, nchains, 15):       # batches: one TLC run validates 15 chains x all domains step by step
         f_, k_, t_ = domops.run_batch(ck, "chains%d" % off, hs[off:off + 15], doms, box=1, univ=6, timeout=2400, step_timeout=60)
@@ -44,7 +45,7 @@ def run(tier, seed):
     nlong = 6 if tier == "quick" else 60
     hl = []
     for i in range(nlong):
-        h = hist.chain_history(ck.rng, 5000 + i, n=LONG_N, params=ck.rng.choice(c03.PARAMS))
+        h = hist.chain_history(ck.rng, 5000 + i, n=LONG_N, params=ck.rng.choice(c03.PARAMS), stride=True if i < 2 else None)
         for st in h["steps"]:       # at most 2 thresholds so that the cap below is a true bound
             if "ts" in st:
                 st["ts"] = st["ts"][:2]
